@@ -261,7 +261,7 @@ PASS_THROUGH = {
 }
 
 
-def forward_sinks(body, local, follow_refs=True, max_nodes=500, through=()):
+def forward_sinks(body, local, follow_refs=True, max_nodes=500, through=(), skip_variants=()):
     """Where does the value held in `local` end up?  Follows moves/copies/casts into other locals,
     (optionally) borrows, and field extraction.  Returns records:
        ('call', Term, argidx, via_ref)    passed to a call
@@ -288,6 +288,10 @@ def forward_sinks(body, local, follow_refs=True, max_nodes=500, through=()):
         for (b, i, kind, node, oi) in ui.get(l, []):
             if kind in ('move', 'copy'):
                 s = node
+                if skip_variants:
+                    opl = s.rv.ops[oi].place
+                    if opl is not None and any(p['k'] == 'downcast' and p['variant'] in skip_variants for p in opl.proj):
+                        continue      # the success payload is not the value being tracked
                 rvk = s.rv.k
                 if rvk in ('use', 'cast'):
                     if s.place.is_local():
@@ -411,3 +415,13 @@ def is_buffer_call(prog, callee, _cache={}):
         _cache[key] = buffer_accessors(prog)
     cb = prog.local_callee_body(callee)
     return cb is not None and cb.path in _cache[key]
+
+
+def is_discard_all(prog, body, term, du=None):
+    """`consume(n)` with n = length of the reader buffer: the buffer is emptied, nothing is re-based"""
+    if not (term.callee and term.callee.is_('std::io::BufRead::consume') and len(term.args) == 2):
+        return False
+    rs = roots_of(body, term.args[1], du)
+    return bool(rs) and all(r[0] == 'call' and r[1].callee and r[1].callee.name == 'len' and
+                            all(q[0] == 'call' and is_buffer_call(prog, q[1].callee) for q in roots_of(body, r[1].args[0], du, through_calls=identity_through))
+                            for r in rs)
